@@ -200,6 +200,21 @@ func (x *c20SX) convert(t types.Type, v c20V, at ast.Node) c20V {
 				return v
 			}
 		}
+	case tb != nil && tb.Info()&types.IsFloat != 0:
+		// float64(x): an integer input loses exactness above 2^53, a float keeps its value (float32 rounds)
+		if v.k == c20kIn && v.h != nil && v.typ != nil {
+			if vb, ok := v.typ.Underlying().(*types.Basic); ok && vb.Info()&(types.IsInteger|types.IsFloat) != 0 {
+				h := *v.h
+				switch {
+				case vb.Info()&types.IsInteger != 0:
+					h.fl, h.flsrc = "int→float64", "float conversion"
+				case tb.Kind() == types.Float32:
+					h.fl, h.flsrc = "bits32", "float32 conversion"
+				}
+				v.h, v.typ = &h, t
+				return v
+			}
+		}
 	case tb == nil:
 		if _, isIface := t.Underlying().(*types.Interface); isIface {
 			return v
